@@ -6,7 +6,7 @@ write-class event (catches transient writes), (c) strace cross-check of console 
 writers (one-shot, sticky), plus missing-binary and unknown-field failure forms."""
 import os, sys, random, shutil, json, subprocess
 import numpy as np
-from .. import common, gen, chkgen, pools, fsaudit, faults, refmodel, scenarios
+from .. import common, gen, chkgen, pools, fsaudit, faults, refmodel, refparse, scenarios
 
 ID = "C13"
 LEVEL = "fault_enumeration"
@@ -58,6 +58,9 @@ def cases(tier, seed):
     # and whip / the per-file iterators use 'parse failure = end of file' by design: not driven here)
     for tool in ["colander", "combine", "combine_byfile", "chef", "chk2plt"]:
         cs.append({"kind": "truncated", "tool": tool, "seed": seed * 100 + 17})
+        if tool != "chk2plt":
+            for damage in ("cut_at_box:1", "cut_at_box:2", "empty"):
+                cs.append({"kind": "truncated", "tool": tool, "seed": seed * 100 + 17, "damage": damage})
     if tier == "thorough":
         for tool in ["colander", "chef", "marinate", "chk2plt", "mandoline_array", "combine", "whip"]:
             cs.append({"kind": "strace", "tool": tool, "seed": seed * 100 + 13})
@@ -502,32 +505,79 @@ def run_missing(case, work, rec):
 
 
 def run_truncated(case, work, rec):
-    """the last FAB of a binary file of the input is cut short: the tool must not return normally
-    with output that silently lacks data"""
+    """an input binary file is damaged so that it cannot be read completely - its last FAB cut short, the
+    file cut exactly at the start of one of its FABs, a FAB header line in the middle overwritten, the file
+    emptied: the tool must not return normally with output that silently lacks data"""
     tool = case["tool"]
+    damage = case.get("damage", "tail24")
     sb = Sandbox(work, case["seed"])
     make_refY(sb)
     rec.seen("tools", tool)
     if tool == "chk2plt":
-        d = os.path.join(sb.chk, "Level_0")
-        victim = sorted(f for f in os.listdir(d) if f.startswith("state_D"))[-1]
+        root, prefix = sb.chk, "state_D"
     else:
-        target = sb.plt4 if tool == "combine_byfile" else sb.plt2 if tool == "combine" else sb.plt
-        d = os.path.join(target, "Level_0")
-        victim = sorted(f for f in os.listdir(d) if f.startswith("Cell_D"))[-1]
-    vp = os.path.join(d, victim)
-    with open(vp, "r+b") as f:
-        f.truncate(os.path.getsize(vp) - 24)
+        root, prefix = (sb.plt4 if tool == "combine_byfile" else sb.plt2 if tool == "combine" else sb.plt), "Cell_D"
+    # what the tool writes from the intact input (a damage the tool does not depend on - it may never look
+    # at the overwritten bytes - is no failure: then the output is simply the same)
+    ref_digest = None
+    if damage != "tail24":
+        o_ref, o_ref_abs = explicit_out(tool, sb, None)
+        pools.CTL.reset(mode="inproc", seed=2)
+        try:
+            invoke(tool, "api", sb, "abs", o_ref)
+            ref_digest = refmodel.tree_digest(o_ref_abs) if os.path.exists(o_ref_abs) else None
+        except Exception:
+            ref_digest = None
+        shutil.rmtree(o_ref_abs, ignore_errors=True)
+    # the binary file holding most FABs (cutting at a FAB boundary needs several)
+    best = None
+    for lvd in sorted(x for x in os.listdir(root) if x.startswith("Level_")):
+        for f in sorted(os.listdir(os.path.join(root, lvd))):
+            if f.startswith(prefix):
+                walk, _ = refparse.file_walk(os.path.join(root, lvd, f)) if prefix == "Cell_D" else ([], 0)
+                if best is None or len(walk) > len(best[1]):
+                    best = (os.path.join(root, lvd, f), walk)
+    if damage == "tail24" or prefix != "Cell_D":
+        d = os.path.join(root, "Level_0")
+        victim = sorted(f for f in os.listdir(d) if f.startswith(prefix))[-1]
+        vp = os.path.join(d, victim)
+        with open(vp, "r+b") as f:
+            f.truncate(os.path.getsize(vp) - 24)
+        what = f"the last FAB of {victim} truncated by 24 bytes"
+    else:
+        vp, walk = best
+        victim = os.path.relpath(vp, root)
+        if damage.startswith("cut_at_box"):
+            k = int(damage.split(":")[1])
+            if len(walk) <= k:
+                rec.skip("no binary file with enough FABs"); return
+            with open(vp, "r+b") as f:
+                f.truncate(walk[k][0])
+            what = f"{victim} cut exactly at the start of its FAB number {k + 1} of {len(walk)}"
+        elif damage == "garbage_header":
+            if len(walk) < 3:
+                rec.skip("no binary file with enough FABs"); return
+            with open(vp, "r+b") as f:
+                f.seek(walk[len(walk) // 2][0]); f.write(b"XYZ ")
+            what = f"the header of FAB number {len(walk) // 2 + 1} of {len(walk)} in {victim} overwritten"
+        else:
+            with open(vp, "r+b") as f:
+                f.truncate(0)
+            what = f"{victim} emptied"
+    rec.seen("input_damage_forms", damage)
     outarg, out_abs = (None, None) if tool == "pestle" else explicit_out(tool, sb, None)
-    key = (tool, "truncated-input")
+    key = (tool, "unreadable-input", damage)
     pools.CTL.reset(mode="inproc", seed=2)
     rec.count("invocations"); rec.count("truncated_input_forms")
     form = "cli" if tool == "whip" else "api"
-    exc, new = audit_invocation(rec, sb, work, f"{tool} with the last FAB of {victim} truncated by 24 bytes", key,
+    exc, new = audit_invocation(rec, sb, work, f"{tool} with {what}", key,
                                 lambda: invoke(tool, form, sb, "abs", outarg), out_abs, tool == "pestle", True)
-    if exc is None:
-        rec.violation(f"{tool}: returned normally although the last FAB of input file {victim} is truncated "
-                      f"(a read failure was swallowed)", key=key + ("noerr",),
+    if exc is None and ref_digest is not None and out_abs and os.path.exists(out_abs) \
+            and refmodel.tree_digest(out_abs) == ref_digest:
+        rec.count("damage_not_needed_by_the_tool")       # same output as from the intact input
+    elif exc is None:
+        rec.violation(f"{tool}: returned normally although input file {what} "
+                      f"(a read failure was swallowed)", key=key + ("noerr",), mech="unreadable-input:" + tool + ":" + damage.split(":")[0],
                       witness={"wrote": [os.path.relpath(p, sb.root) for p in new][:5]})
     clean_outputs(sb, new)
 
